@@ -555,16 +555,20 @@ static void sequences(vf::Ctx& c, bool graphOnly, int lenQuick, int lenThorough,
     NP a = w.newN(W), b = w.newN(W); W.o->associateNode(a, 0); W.o->associateNode(b, 1); W.m.nId[a->tag] = 0; W.m.nId[b->tag] = 1; W.m.nTable = 2;
   }
   w.nLinks = 0; w.what = "start configuration";
-  if (!enumerating || len == 1) w.checkAll();
+  // Sharding: only the last round (len == maxLen) is divided, by the hash of its (len-1)-operation prefix; the shorter
+  // rounds are run by every shard because they fill the table of first paths, but checked and counted by shard 0 only.
+  const bool lastRound = len == maxLen, mine = !enumerating || lastRound || c.shardK == 0;
+  if (!enumerating || (len == 1 && mine)) w.checkAll();
   for (int i = 0; i < len; ++i) {
     w.stepOp();
-    if (i == 0) c.shardPoint();  // the description so far: configuration and first operation (not the length)
     if (!enumerating) { w.checkAll(); continue; }
     uint64_t key = vf::hashStr(w.stateKey()), ph = vf::hashStr(c.desc.str());
     auto it = seen.find(key);
     if (i + 1 < len) { if (it == seen.end() || it->second != ph) throw vf::Skip(); }  // not the first path to this state: explored elsewhere
     else if (it == seen.end()) seen.emplace(key, ph);
+    if (lastRound && i == len - 2) c.shardPoint();  // the description so far is the prefix
   }
+  if (enumerating && !mine) throw vf::Skip();
   if (enumerating) w.checkAll();
   c.desc << " [" << len << " op(s)]";
   c.nt(w.ntDelete || w.ntDirection || w.illRaised > 0);
